@@ -515,32 +515,35 @@ def StepOk (env : Env) (src : List Char) (l : List Tok) : Step → Prop
   | .custom _ f => ∃ o, f env src l = .ok o
   | _ => True
 
-theorem Step.run_okL (env : Env) (src : List Char) (l : List Tok) (h : InText src l) (vars : List (List Char)) (s : Step)
-    (hk : StepOk env src l s) (hf : s.Fits l.length) : ∃ o, s.run env src l vars = .ok o := by
+theorem Step.run_okL (env : Env) (src : List Char) (l : List Tok) (h : InText src l) (vars : List (List Char)) (v : Nat) (s : Step)
+    (hk : StepOk env src l s) (hf : s.Fits l.length v) : ∃ o, s.run env src l vars = .ok o := by
   cases s with
   | custom need f =>
     obtain ⟨o, eo⟩ := (show ∃ o, f env src l = .ok o from hk)
     simp only [Step.run, eo]
     cases o <;> exact ⟨_, rfl⟩
-  | get i => exact Step.run_ok env src l h vars _ trivial hf
-  | numberAt i => exact Step.run_ok env src l h vars _ trivial hf
-  | bind t => exact Step.run_ok env src l h vars _ trivial hf
+  | get i => exact Step.run_ok env src l h vars v _ trivial hf
+  | numberAt i => exact Step.run_ok env src l h vars v _ trivial hf
+  | bind t => exact Step.run_ok env src l h vars v _ trivial hf
 
 theorem runSteps_okL (env : Env) (src : List Char) (l : List Tok) (h : InText src l) : ∀ (ss : List Step), (∀ s ∈ ss, StepOk env src l s) →
-    (∀ s ∈ ss, s.Fits l.length) → ∀ vars, ∃ o, runSteps env src l ss vars = .ok o
-  | [], _, _, _ => ⟨_, rfl⟩
-  | s :: ss, hg, hf, vars => by
-    obtain ⟨o, eo⟩ := Step.run_okL env src l h vars s (hg s (by simp)) (hf s (by simp))
+    ∀ (vars : List (List Char)) (K : Nat → Prop), StepsFit l.length ss vars.length K →
+      ∃ o, runSteps env src l ss vars = .ok o ∧ ∀ vars', o = some vars' → K vars'.length
+  | [], _, vars, K, hf => ⟨_, rfl, fun vars' e => by cases e; exact hf⟩
+  | s :: ss, hg, vars, K, ⟨hf, k, hb, hr⟩ => by
+    obtain ⟨o, eo⟩ := Step.run_okL env src l h vars vars.length s (hg s (by simp)) hf
     simp only [runSteps, eo]
     cases o with
-    | none => exact ⟨_, rfl⟩
-    | some v => exact runSteps_okL env src l h ss (fun x hx => hg x (List.mem_cons_of_mem _ hx)) (fun x hx => hf x (List.mem_cons_of_mem _ hx)) v
+    | none => exact ⟨_, rfl, fun _ e => by cases e⟩
+    | some v =>
+      have hl := Step.run_length env src l vars v s k hb eo
+      exact runSteps_okL env src l h ss (fun x hx => hg x (List.mem_cons_of_mem _ hx)) v K (hl ▸ hr)
 
 /-- `Spec.run_ok` when the own computations are known to return on these very tokens -/
 theorem Spec.run_okL (env : Env) (s : Spec) (src : List Char) (l : List Tok) (h : InText src l) (hf : s.Fits l.length)
     (hk : (∀ x ∈ s.before, StepOk env src l x) ∧ (∀ x ∈ s.after, StepOk env src l x)) :
     ∃ ls, s.run env src l = .ok ls ∧ ∀ x ∈ ls, LintOK src.length x := by
-  obtain ⟨o1, e1⟩ := runSteps_okL env src l h s.before hk.1 hf.before []
+  obtain ⟨o1, e1, k1⟩ := runSteps_okL env src l h s.before hk.1 [] _ hf.steps
   simp only [Spec.run, e1]
   cases o1 with
   | none => exact ⟨[], rfl, by simp⟩
@@ -550,12 +553,12 @@ theorem Spec.run_okL (env : Env) (s : Spec) (src : List Char) (l : List Tok) (h 
     cases o2 with
     | none => exact ⟨[], rfl, by simp⟩
     | some sp =>
-      obtain ⟨o3, e3⟩ := runSteps_okL env src l h s.after hk.2 hf.after vars
+      obtain ⟨o3, e3, k3⟩ := runSteps_okL env src l h s.after hk.2 vars _ (k1 vars rfl)
       simp only [e3]
       cases o3 with
       | none => exact ⟨[], rfl, by simp⟩
       | some vars' =>
-        obtain ⟨o4, e4⟩ := evalSuggs_ok env src l h vars' (s.suggs l.length) hf.suggs
+        obtain ⟨o4, e4⟩ := evalSuggs_ok env src l h vars' vars'.length (s.suggs l.length) (k3 vars' rfl)
         simp only [e4]
         cases o4 with
         | none => exact ⟨[], rfl, by simp⟩
@@ -856,6 +859,43 @@ theorem mergedWord_ok (env : Env) (hd : DictOK env) (i j bit : Nat) (src : List 
     | some c => exact ⟨_, rfl⟩
   · exact ⟨_, rfl⟩
 
+/-! ### how many texts they hand on -/
+
+theorem toHopCorrect_yields (n : Nat) : CustomYields n 1 toHopCorrect := by
+  intro env src l vs _ h
+  simp only [toHopCorrect] at h
+  repeat' split at h
+  all_goals first | (cases h; rfl) | cases h
+
+/-- the two forms of `mistake_to_correct` -/
+theorem contractForms_yields (n : Nat) : CustomYields n 2 contractForms := by
+  intro env src l vs _ h
+  simp only [contractForms] at h
+  split at h
+  · cases h
+  · split at h
+    · cases h
+    · cases hk : contractTable.lookup (toLower env (toLowerCow env ‹List Char›)) with
+      | none => rw [hk] at h; cases h
+      | some forms =>
+        rw [hk] at h
+        cases h
+        simp only [contractTable, List.lookup] at hk
+        repeat' split at hk
+        all_goals first | (cases hk; rfl) | cases hk
+
+theorem mergedWord_yields (i j bit n : Nat) : CustomYields n 1 (mergedWord i j bit) := by
+  intro env src l vs _ h
+  simp only [mergedWord] at h
+  repeat' split at h
+  all_goals first | (cases h; rfl) | cases h
+
+theorem letsGuard_yields (n : Nat) : CustomYields n 0 letsGuard := by
+  intro env src l vs _ h
+  simp only [letsGuard] at h
+  repeat' split at h
+  all_goals first | (cases h; rfl) | cases h | (simp only [Except.ok.injEq] at h; split at h <;> cases h; rfl)
+
 /-! ### ShouldContract's `panic!` arm is unreachable -/
 
 /-- `char::to_lowercase` of every character whose ASCII lower case is one of `y o u r w e` (those six letters and their
@@ -961,7 +1001,7 @@ theorem fineToHop : Fine toHop where
     have e : toHop.pat.minLen = 7 := by decide
     rw [e] at hmin
     unfold toHop specToHop
-    fits_tac
+    fits_custom 1 (toHopCorrect_yields n)
 
 theorem fineToHope : Fine toHope where
   plain := by decide
@@ -1007,6 +1047,40 @@ theorem fineNoContractionWithVerb : Fine noContractionWithVerb where
     unfold noContractionWithVerb specNoContractionWithVerb
     fits_tac
 
+/-! the index expressions and the variables of the four children whose own computations are total only relative to the `Env`
+(`Spec.Fits` needs no hypothesis on it) -/
+
+/-- `.var 0`, `.var 1`: the two forms `mistake_to_correct` hands on -/
+theorem shouldContract_fits (n : Nat) (hmin : shouldContract.pat.minLen ≤ n) : shouldContract.spec.Fits n := by
+  have e : shouldContract.pat.minLen = 5 := by decide
+  rw [e] at hmin
+  unfold shouldContract specShouldContract
+  fits_custom 2 (contractForms_yields n)
+
+/-- `orig` (`.var 0`) is bound by the `.bind`, `word` (`.var 1`) by `get_merged_word` -/
+theorem generalCompoundNouns_fits (n : Nat) (hmin : generalCompoundNouns.pat.minLen ≤ n) : generalCompoundNouns.spec.Fits n := by
+  have e : generalCompoundNouns.pat.minLen = 5 := by decide
+  rw [e] at hmin
+  unfold generalCompoundNouns specGeneralCompoundNouns
+  refine ⟨?_, ?_, stepsFit_bind _ _ _ _ _ ?_ (stepsFit_custom _ 1 _ _ _ _ _ ?_ (mergedWord_yields 2 4 20 n) ?_)⟩ <;> fits_simp
+
+theorem impliedInstantiatedCompoundNouns_fits (n : Nat) (hmin : impliedInstantiatedCompoundNouns.pat.minLen ≤ n) :
+    impliedInstantiatedCompoundNouns.spec.Fits n := by
+  have e : impliedInstantiatedCompoundNouns.pat.minLen = 5 := by decide
+  rw [e] at hmin
+  unfold impliedInstantiatedCompoundNouns specImpliedInstantiatedCompoundNouns
+  refine ⟨?_, ?_, stepsFit_bind _ _ _ _ _ ?_ (stepsFit_custom _ 1 _ _ _ _ _ ?_ (mergedWord_yields 0 2 21 n)
+    (stepsFit_bind _ _ _ _ _ ?_ ?_))⟩ <;> fits_simp
+
+/-- `letsGuard` binds nothing, so `get_merged_word`'s text is `.var 0` -/
+theorem impliedOwnershipCompoundNouns_fits (n : Nat) (hmin : impliedOwnershipCompoundNouns.pat.minLen ≤ n) :
+    impliedOwnershipCompoundNouns.spec.Fits n := by
+  have e : impliedOwnershipCompoundNouns.pat.minLen = 5 := by decide
+  rw [e] at hmin
+  unfold impliedOwnershipCompoundNouns specImpliedOwnershipCompoundNouns
+  refine ⟨?_, ?_, stepsFit_custom _ 0 _ _ _ _ _ ?_ (letsGuard_yields n) (stepsFit_custom _ 1 _ _ _ _ _ ?_ (mergedWord_yields 2 4 8 n) ?_)⟩ <;>
+    fits_simp
+
 /-- ShouldContract, for an `Env` whose `to_lowercase` is right on the twelve letters: the `panic!` is never reached -/
 theorem fineE_shouldContract (env : Env) (hl : ContractLowerOK env) : FineE env shouldContract := by
   apply fineE_of env shouldContract (side_of_plain env _ _ (by decide)) (by unfold shouldContract patShouldContract; loc_tac)
@@ -1015,11 +1089,7 @@ theorem fineE_shouldContract (env : Env) (hl : ContractLowerOK env) : FineE env 
     simp only [shouldContract, specShouldContract, List.mem_singleton] at hx
     subst hx
     exact contractForms_loc
-  · intro n hmin _
-    have e : shouldContract.pat.minLen = 5 := by decide
-    rw [e] at hmin
-    unfold shouldContract specShouldContract
-    fits_tac
+  · exact fun n hmin _ => shouldContract_fits n hmin
   · intro src full n hin hm hn hnl _
     refine ⟨?_, fun x hx => by simp [shouldContract, specShouldContract] at hx⟩
     intro x hx
@@ -1038,11 +1108,7 @@ theorem fineE_generalCompoundNouns (env : Env) (hd : DictOK env) : FineE env gen
     rcases hx with rfl | rfl
     · trivial
     · exact mergedWord_loc 2 4 20
-  · intro n hmin _
-    have e : generalCompoundNouns.pat.minLen = 5 := by decide
-    rw [e] at hmin
-    unfold generalCompoundNouns specGeneralCompoundNouns
-    fits_tac
+  · exact fun n hmin _ => generalCompoundNouns_fits n hmin
   · intro src full n hin hm hn hnl hmin
     have e : generalCompoundNouns.pat.minLen = 5 := by decide
     rw [e] at hmin
@@ -1066,11 +1132,7 @@ theorem fineE_impliedInstantiatedCompoundNouns (env : Env) (hd : DictOK env) : F
     · trivial
     · exact mergedWord_loc 0 2 21
     · trivial
-  · intro n hmin _
-    have e : impliedInstantiatedCompoundNouns.pat.minLen = 5 := by decide
-    rw [e] at hmin
-    unfold impliedInstantiatedCompoundNouns specImpliedInstantiatedCompoundNouns
-    fits_tac
+  · exact fun n hmin _ => impliedInstantiatedCompoundNouns_fits n hmin
   · intro src full n hin hm hn hnl hmin
     have e : impliedInstantiatedCompoundNouns.pat.minLen = 5 := by decide
     rw [e] at hmin
@@ -1097,11 +1159,7 @@ theorem fineE_impliedOwnershipCompoundNouns (env : Env) (hd : DictOK env) : Fine
       simp only [impliedOwnershipCompoundNouns, specImpliedOwnershipCompoundNouns, List.mem_singleton] at hx
       subst hx
       exact mergedWord_loc 2 4 8
-  · intro n hmin _
-    have e : impliedOwnershipCompoundNouns.pat.minLen = 5 := by decide
-    rw [e] at hmin
-    unfold impliedOwnershipCompoundNouns specImpliedOwnershipCompoundNouns
-    fits_tac
+  · exact fun n hmin _ => impliedOwnershipCompoundNouns_fits n hmin
   · intro src full n hin hm hn hnl hmin
     have e : impliedOwnershipCompoundNouns.pat.minLen = 5 := by decide
     rw [e] at hmin
@@ -1200,5 +1258,21 @@ theorem allChildren_local : ∀ x ∈ allChildren, x.2.pat.Loc ∧ SpecLoc x.2.s
   · exact generalCompoundNouns_local
   · exact impliedInstantiatedCompoundNouns_local
   · exact impliedOwnershipCompoundNouns_local
+
+/-- every child's spec fits every length its tree can match: index expressions in range, every `.var` bound — for every `Env`,
+no hypothesis -/
+theorem allChildren_fits : ∀ x ∈ allChildren, ∀ n, x.2.pat.minLen ≤ n → (∀ k, x.2.pat.maxLen = some k → n ≤ k) → x.2.spec.Fits n := by
+  intro x hx n hmin hmax
+  simp only [allChildren, List.mem_cons, List.mem_nil_iff, or_false] at hx
+  rcases hx with rfl | rfl | rfl | rfl | rfl | rfl | rfl | rfl | rfl
+  · exact fineToHop.fits n hmin hmax
+  · exact fineToHope.fits n hmin hmax
+  · exact shouldContract_fits n hmin
+  · exact fineAvoidContraction.fits n hmin hmax
+  · exact fineLetUsRedundancy.fits n hmin hmax
+  · exact fineNoContractionWithVerb.fits n hmin hmax
+  · exact generalCompoundNouns_fits n hmin
+  · exact impliedInstantiatedCompoundNouns_fits n hmin
+  · exact impliedOwnershipCompoundNouns_fits n hmin
 
 end Harper.MergeRules
